@@ -92,7 +92,8 @@ CHECKS = {
         "level_note": "a panic inside one of bsdiff's goroutines kills the process; the journalled case is then the reproduction.",
         "rule": ("rapid draws (build pair, compression, optimizer params). Non-trivial: the optimized patch (decoded) contains >=1 BSDIFF "
                  "series. Distinct: SHA-1 of the spec."),
-        "assumptions": [],
+        "assumptions": ["in a third of the cases the pools handed to Optimize have been used before (some bytes, or all, of one old and one new file read through GetReadSeeker): lake.Pool makes no promise about the position of a seeker it hands out again",
+                        ],
         "required_classes": {"quick": ["series:bsdiff", "new-file:shorter-than-partitions", "opt:ForceMapAll", "series:bsdiff-against-differently-named-old-file"],
                              "thorough": ["series:bsdiff", "new-file:shorter-than-partitions", "opt:ForceMapAll", "series:bsdiff-against-differently-named-old-file", "series:excluded-by-size-limit"]},
         "stages": [rapid("optimize", "TestProp", 12000, 288000, qs=16, ts=16, qt=600, tt=5400)],
